@@ -76,7 +76,7 @@ def stats(c, r):
 e1check.run(dict(
     prop='C09B', props='C09Barrier', model='barrier', harness='e1/barrier.cpp', bin='e1_barrier',
     gen=gen, nontrivial=nontrivial, stats=stats,
-    quick=2000, thorough=40000, extra=4000,
+    quick=1500, thorough=40000, extra=4000,
     rule='random well-formed barrier programs (1-12 threads standing for 1-24 participants, 1-300 phases, arrive(n)/wait/arrive_and_wait/arrive_and_drop, callers on OS threads and on pika tasks) on one pika::barrier with a completion function, PRNG schedules (uniform / priority / sticky); non-trivial = some ticket CAS failed or observed a half-taken ticket; distinct = distinct (program, schedule seed) text',
     assumptions=['barrier::wait with a non-zero busy_wait_timeout (wall-clock bounded spinning before the same polling loop) is not exercised',
                  'client preconditions of arrive/arrive_and_drop (update <= expected count of the current phase) are part of the acceptor'],
